@@ -8,7 +8,7 @@
    compared on every generated case by the check (application, model and specification on the same input, inside
    Coq); it is proved here only for the per-group matching step, and it is FALSE in general: see the two
    refutation theorems, whose witnesses are replayed on the application by the check (known findings). *)
-From PV Require Import Spec.CandSpec Proofs.C03 Proofs.C03r Proofs.C03e Proofs.C02m Proofs.C03s.
+From PV Require Import Spec.CandSpec Proofs.C03 Proofs.C03r Proofs.C03e Proofs.C02m Proofs.C03s Proofs.C03c Proofs.Defs.
 
 (* the specification enumerator returns exactly the valid combinations, each once *)
 Theorem C03_spec_sound : forall v q d c, In c (spec_candidates v q d) -> valid v q d c.
@@ -64,6 +64,40 @@ Theorem C03_suffixed_only_sound : forall v q d a s,
   forall c, In c a -> exists c', In c' (map (creq_view v) (spec_candidates v q d)) /\ same_creq c c' = true.
 Proof. exact c03_suffixed_only_sound. Qed.
 Print Assumptions C03_suffixed_only_sound.
+
+(* ... and COMPLETE on the same fragment: nothing valid is omitted, so there the code model returns EXACTLY the
+   specification's combinations (mutual inclusion up to same_creq).  Extra hypothesis anchors_hyp: the query has no
+   root_required filter, or every provider that is its own root has no parent - true of every Forest
+   (C03_forest_roots_parentless), hence of every reachable state; without it the statement is false on an unreachable
+   table (C03_complete_needs_roots_parentless: the code looks for anchors among PARENTLESS providers). *)
+Theorem C03_suffixed_only_exact : forall v q d a s,
+  rps_wf d -> no_sharing d -> parentless_root d -> caps_nonneg d ->
+  (forall g, In g (qy_groups q) -> use_same_provider g = true) ->
+  anchors_hyp q d ->
+  candidates v q d = COk a s ->
+  (forall c, In c a -> exists c', In c' (map (creq_view v) (spec_candidates v q d)) /\ same_creq c c' = true) /\
+  (forall c', In c' (map (creq_view v) (spec_candidates v q d)) -> exists c, In c a /\ same_creq c c' = true).
+Proof. exact c03_suffixed_only_exact. Qed.
+Print Assumptions C03_suffixed_only_exact.
+
+Theorem C03_forest_roots_parentless : forall d, Forest d -> roots_parentless d.
+Proof. exact Forest_roots_parentless. Qed.
+Print Assumptions C03_forest_roots_parentless.
+
+(* on the fragment the model never answers KeyError or an order-dependent result *)
+Theorem C03_suffixed_only_answers : forall v q d,
+  rps_wf d -> no_sharing d -> (forall g, In g (qy_groups q) -> use_same_provider g = true) ->
+  (exists e, candidates v q d = CErr e) \/ (exists a s, candidates v q d = COk a s).
+Proof. exact c03_suffixed_only_answers. Qed.
+Print Assumptions C03_suffixed_only_answers.
+
+Theorem C03_complete_needs_roots_parentless :
+  exists v q d, rps_wf d /\ no_sharing d /\ parentless_root d /\ caps_nonneg d /\
+    (forall g, In g (qy_groups q) -> use_same_provider g = true) /\ ~ Forest d /\
+    candidates v q d = COk [] [] /\
+    map (creq_view v) (spec_candidates v q d) = [mkCreq (-1) [mkRreq 1 0 1] [(1, [1])]].
+Proof. exact c03_complete_needs_roots_parentless. Qed.
+Print Assumptions C03_complete_needs_roots_parentless.
 
 (* REFUTED: the faithful model omits valid candidates *)
 (* 1. a sharing provider reachable from several anchors: the per-group result is a SET of allocation requests
